@@ -234,7 +234,7 @@ class Xform(Harness):
 
     def do_expand(self, ch, n):
         # node X (picked) is replaced by: source "x" -> "mid" -> leaf sink(s)
-        spec, names = self.gen(ch, n, outs={k: v for k, v in OUTS.items() if k != "attr"})
+        spec, names = self.gen(ch, n, outs=None if not self._light else {k: v for k, v in OUTS.items() if k != "attr"})
         xi = ch.pick(n, "expanded")
         # X takes at most the input named "x" (the generator names inputs x, y)
         ch.assume(len(spec[xi]["inputs"]) <= 1)
@@ -252,11 +252,13 @@ class Xform(Harness):
         side = ch.flag("side_sink")
         ch.assume(bool(outs) or side)  # the template has at least one sink
 
+        named_src = (not self._light) and ch.flag("template_source_has_named_outputs")
+
         def expander(node):
             if node.name != X:
                 return None
-            s = Node(src_name, payload="tsrc")
-            mid = Node("mid", payload="tmid", i=s)
+            s = Node(src_name, outputs=["p", "q"], payload="tsrc") if named_src else Node(src_name, payload="tsrc")
+            mid = Node("mid", payload="tmid", i=s.get_output("q") if named_src else s)
             sinks = [Node(leaf(o), outputs=[], payload=("tleaf", o), i=mid) for o in outs]
             extra = [Node("side", outputs=[], payload="tside", i=mid)] if side else []
             sub = Graph(sinks + extra)
@@ -271,11 +273,12 @@ class Xform(Harness):
         want = dict(graphgen.spec_structure(spec, names))
         want.pop(X)
         xin = [(iname, names[i], o) for (iname, i, o) in spec[xi]["inputs"]]
+        souts = ("p", "q") if named_src else (Node.DEFAULT_OUTPUT,)
         if xin:
-            want[f"{X}.{src_name}"] = ((Node.DEFAULT_OUTPUT,), repr("tsrc"), (("input", xin[0][1], xin[0][2]),))
+            want[f"{X}.{src_name}"] = (souts, repr("tsrc"), (("input", xin[0][1], xin[0][2]),))
         else:
-            want[f"{X}.{src_name}"] = ((Node.DEFAULT_OUTPUT,), repr("tsrc"), ())
-        want[f"{X}.mid"] = ((Node.DEFAULT_OUTPUT,), repr("tmid"), (("i", f"{X}.{src_name}", Node.DEFAULT_OUTPUT),))
+            want[f"{X}.{src_name}"] = (souts, repr("tsrc"), ())
+        want[f"{X}.mid"] = ((Node.DEFAULT_OUTPUT,), repr("tmid"), (("i", f"{X}.{src_name}", "q" if named_src else Node.DEFAULT_OUTPUT),))
         for o in outs:
             want[f"{X}.{leaf(o)}"] = ((Node.DEFAULT_OUTPUT,), repr(("tleaf", o)), (("i", f"{X}.mid", Node.DEFAULT_OUTPUT),))
         # consumers of X are wired to the leaf selected by the output map
